@@ -157,7 +157,11 @@ func runReplayTest(repoDir, verif string, e replayEntry, seed int, obligation st
 	if _, err := os.Stat(src); err != nil {
 		return "replay source missing: " + src, false, false
 	}
-	dst := filepath.Join(repoDir, e.Pkg, "zz_verif_replay_test.go")
+	// the injected file's name is derived from the oracle's own file name: cmd/go's package
+	// index is keyed by (name, size, mtime) of a directory's entries, and after a fresh
+	// restore all oracle files share one mtime - two oracles of equal size injected under
+	// one name were then confused with each other ("could not import os")
+	dst := filepath.Join(repoDir, e.Pkg, "zz_verif_"+strings.TrimSuffix(e.File, "_test.go")+"_test.go")
 	ov := map[string]map[string]string{"Replace": {dst: src}}
 	ovData, _ := json.Marshal(ov)
 	ovFile := scratchFile(".overlay.json")
